@@ -85,6 +85,9 @@ SIGNALS = [(PAttr, "u3.AttributeError"), (PKeyE, "u4.KeyError"), (PIndex, "u5.In
            (PValue, "u7.ValueError"), (PStop, "u8.StopIteration"), (PLookup2, "u11.u4.KeyError")]
 
 
+NEWSTYLE = [False]      # the i18n extension's gettext style, alternating between template sets
+
+
 PROTOCOL = {("next", PStop), ("anext", PStop), ("item", PIndex), ("len", PType), ("iter", PType)}
 
 
@@ -424,6 +427,8 @@ FIXED = [
     "{{ r[k] }}|{{ o[k] is undefined }}|{{ o is sequence }}",
     "{% import 'lib.html' as L %}{{ L.lm(r) }}{{ L.v }}|{{ f() }}|{% for x in xs if x.a %}[{{ x.n }}]{% endfor %}",
     # every kind of call on data objects that also answer attribute lookups (the sandbox probes them before calling)
+    "{% trans v=s, w=q %}v={{ v }} w={{ w }}{% endtrans %}|{{ gettext('a %(x)s', x=s) if false else _('p') }}|{% trans n=o.n %}{{ n }} one{% pluralize %}{{ n }} many{% endtrans %}",
+    "{% trans v=s %}v={{ v }}{% endtrans %}|{{ ngettext('%(num)d a', '%(num)d b', 2) }}|{% trans %}plain {{ s }}{% endtrans %}",
     "{{ o(1) }}|{{ o.m(2) }}|{{ f() }}|{% for x in o.b.c if x %}{{ x }}{% endfor %}|{% for x in it %}{{ loop }}{% endfor %}",
 ]
 
@@ -470,7 +475,7 @@ class Engine:
         self.env = cls(loader=jinja2.FunctionLoader(lambda n: (templates[n], n, lambda: True) if n in templates else None),
                        enable_async=is_async, autoescape=(sandboxed != "native"),
                        extensions=["jinja2.ext.do", "jinja2.ext.loopcontrols", "jinja2.ext.i18n"], **kw)
-        self.env.install_null_translations()
+        self.env.install_null_translations(newstyle=NEWSTYLE[0])
         self.is_async = is_async
         self.templates = templates
         self.gen_src = {}
@@ -658,11 +663,12 @@ def run(ctx):
     # ---------------- K / O: fault injection
     reader = StackReader(recs, src_dir)
     loop = asyncio.new_event_loop()
-    n_templates = ctx.size(85, 900)
+    n_templates = ctx.size(70, 800)
     pending = []          # (case, cls_code, stack, real, fired_kind, exc_cls)
     try:
         for ti in range(n_templates):
             src = gen_template(ctx.rng) if ti >= len(FIXED) else FIXED[ti]
+            NEWSTYLE[0] = (ti % 2 == 1)
             templates = dict(AUX)
             templates["main.html"] = src
             cfgs = ctx.rng.sample(CONFIGS, 2)
@@ -820,7 +826,8 @@ SIGNAL_NAMES = {"AttributeError", "LookupError", "KeyError", "IndexError", "Type
                 "ValueError", "UnicodeError", "OverflowError", "TemplateError", "TemplateNotFound", "TemplatesNotFound",
                 "TemplateSyntaxError", "TemplateAssertionError", "TemplateRuntimeError", "UndefinedError", "SecurityError",
                 "FilterArgumentError"}
-EXEMPT = {"tests.test_sequence", "environment.Environment._filter_test_common", "debug.fake_traceback"}
+EXEMPT = {"tests.test_sequence", "environment.Environment._filter_test_common", "debug.fake_traceback",
+          "sandbox.SandboxedEnvironment.call"}
 
 
 def failing_rows(recs):
@@ -879,7 +886,7 @@ def inject_all(ctx, jinja2, reader, loop, templates, cfg, pending, thorough_clas
                 real = "other:" + type(rv).__name__
             else:
                 real = "completed"
-            case = {"template": templates["main.html"], "config": name, "k": k, "class": cls_code, "event": ekind}
+            case = {"template": templates["main.html"], "config": name, "k": k, "class": cls_code, "event": ekind, "newstyle": NEWSTYLE[0]}
             in_try = sum(1 for lab, _ in stack if not lab.startswith("<")) >= 2
             ctx.case(sample=dict(case, outcome=real, stack=[s[0] for s in stack]) if in_try and ctx.evaluations % 97 == 0 else None,
                      key=(templates["main.html"], name, k, cls_code) if in_try else None)
@@ -917,6 +924,7 @@ def replay(ctx, data):
     recs, _ = T2.scan_repo(lib.SRC)
     reader = StackReader(recs, os.path.join(lib.SRC, "jinja2"))
     cfg = [c for c in CONFIGS if c[0] == case["config"]][0]
+    NEWSTYLE[0] = case.get("newstyle", False)
     templates = dict(AUX)
     templates["main.html"] = case["template"]
     engine = Engine(jinja2, cfg[1], cfg[2], templates)
